@@ -306,9 +306,10 @@ Lemma qct_removed env : qct_set None env = None /\ qct_get None = VStr [].
 Proof. split; reflexivity. Qed.
 
 (* ================================================================== Content-Type parameters *)
-(* a parameter the round trip holds for: alphanumeric name; value free of double quote and LF *)
-Definition okp_key (k : str) : Prop := k <> [] /\ Forall (fun c => is_alnum c = true) k.
-Definition okp_val (v : str) : Prop := Forall (fun c => c <> 34 /\ c <> 10) v.
+(* a parameter the round trip holds for: name = an RFC 7230 token (letters, digits, !#$%&'*+-.^_`|~);
+   value free of double quote, backslash and LF *)
+Definition okp_key (k : str) : Prop := k <> [] /\ Forall (fun c => is_pkey c = true) k.
+Definition okp_val (v : str) : Prop := Forall (fun c => c <> 34 /\ c <> 10 /\ c <> 92) v.
 Definition okp (kv : str * str) : Prop := okp_key (fst kv) /\ okp_val (snd kv).
 
 Definition params_text (l : list (str * str)) : str := concat (map param_str l).
@@ -327,10 +328,26 @@ Proof.
   - destruct (N.eqb_spec c 34); [contradiction|]. rewrite IH. reflexivity.
 Qed.
 
-Lemma okp_val_no_dq v : okp_val v -> Forall (fun c => c <> 34) v /\ ~ In 34 v /\ ~ In 10 v.
+Lemma okp_val_no_dq v : okp_val v -> Forall (fun c => c <> 34 /\ c <> 92) v /\ ~ In 34 v /\ ~ In 10 v /\ ~ In 92 v.
 Proof.
-  intros Hv. split; [eapply Forall_impl; [|exact Hv]; intros c [H _]; exact H|].
-  unfold okp_val in Hv. rewrite Forall_forall in Hv. split; intros Hin; destruct (Hv _ Hin); congruence.
+  intros Hv. split; [eapply Forall_impl; [|exact Hv]; intros c [H [_ H2]]; split; assumption|].
+  unfold okp_val in Hv. rewrite Forall_forall in Hv.
+  repeat split; intros Hin; destruct (Hv _ Hin) as [? [? ?]]; congruence.
+Qed.
+
+Lemma quoted_esc_body v : Forall (fun c => c <> 34 /\ c <> 92) v -> forall fuel tail, (length v < fuel)%nat ->
+  quoted_esc fuel (v ++ 34 :: tail) = Some (v, tail).
+Proof.
+  intros Hv. induction Hv as [|c v [H1 H2] Hv IH]; intros fuel tail Hf; (destruct fuel as [|f]; [cbn in Hf; lia|]); cbn [app quoted_esc].
+  - rewrite N.eqb_refl. reflexivity.
+  - destruct (N.eqb_spec c 34); [contradiction|]. destruct (N.eqb_spec c 92); [contradiction|].
+    rewrite (IH f tail ltac:(cbn in Hf; lia)). reflexivity.
+Qed.
+
+Lemma unescape_plain v : Forall (fun c => c <> 34 /\ c <> 92) v -> forall fuel, unescape fuel v = v.
+Proof.
+  intros Hv. induction Hv as [|c v [_ H2] Hv IH]; intros [|f]; cbn [unescape]; try reflexivity.
+  destruct (N.eqb_spec c 92); [contradiction|]. rewrite IH. reflexivity.
 Qed.
 
 (* without LF the test of _OK_PARAM_RE is: non-empty and all of [A-Za-z0-9_.-] *)
@@ -343,8 +360,12 @@ Proof.
   destruct c as [|q]; [reflexivity|]. do 4 (destruct q as [q|q|]; try reflexivity). congruence.
 Qed.
 
-Lemma alnum_misc c : is_alnum c = true -> (c =? 61) = false /\ (c =? 34) = false /\ (c =? 59) = false.
-Proof. unfold is_alnum, is_alpha. lia. Qed.
+Lemma pkey_misc c : is_pkey c = true -> (c =? 61) = false /\ (c =? 34) = false /\ (c =? 59) = false.
+Proof.
+  unfold is_pkey, is_alnum, is_alpha. cbn [mem_n]. intros H.
+  destruct (N.eqb_spec c 61) as [->|]; [discriminate|]. destruct (N.eqb_spec c 34) as [->|]; [discriminate|].
+  destruct (N.eqb_spec c 59) as [->|]; [discriminate|]. auto.
+Qed.
 Lemma pvalue_misc c : is_pvalue c = true -> (c =? 34) = false /\ (c =? 59) = false.
 Proof. unfold is_pvalue, is_alnum, is_alpha. lia. Qed.
 
@@ -353,26 +374,28 @@ Lemma param_scan_step f k v tail : okp (k, v) -> head_fails is_pvalue tail ->
   param_scan (S (S (S f))) (param_str (k, v) ++ tail) = (k, v) :: param_scan f tail.
 Proof.
   intros [[Hne Hk] Hv] Ht. cbn [fst snd] in *.
-  destruct (okp_val_no_dq v Hv) as [Hq [Hnq Hnl]].
+  destruct (okp_val_no_dq v Hv) as [Hq [Hnq [Hnl Hnb]]].
   unfold param_str. cbn [fst snd]. rewrite (ok_param_no_lf v Hnl).
   destruct k as [|c k']; [congruence|]. inversion Hk as [|? ? Hc Hk']; subst.
-  assert (Sp : forall r, span is_alnum ((c :: k') ++ 61 :: r) = (c :: k', 61 :: r)).
+  assert (Sp : forall r, span is_pkey ((c :: k') ++ 61 :: r) = (c :: k', 61 :: r)).
   { intros r. apply span_app; [exact Hk|reflexivity]. }
   destruct (nonempty v && forallb is_pvalue v) eqn:Ep.
   - apply andb_true_iff in Ep. destruct Ep as [Hn Hp]. destruct v as [|x v']; [discriminate|].
     assert (Fp : Forall (fun c => is_pvalue c = true) (x :: v')) by (apply Forall_forall; apply forallb_forall; exact Hp).
     inversion Fp as [|? ? Hx _]; subst.
     rewrite <- !app_assoc. cbn [app].
-    cbn [param_scan]. change (is_alnum 59) with false. cbv iota. change (is_alnum 32) with false. cbv iota.
+    cbn [param_scan]. change (is_pkey 59) with false. cbv iota. change (is_pkey 32) with false. cbv iota.
     rewrite Hc. change (c :: k' ++ 61 :: x :: v' ++ tail) with ((c :: k') ++ 61 :: (x :: v') ++ tail).
     rewrite Sp. change (61 =? 61) with true. cbv iota. cbn [app]. rewrite (proj1 (pvalue_misc x Hx)).
     change (x :: v' ++ tail) with ((x :: v') ++ tail). rewrite (span_app _ _ tail Fp Ht). reflexivity.
-  - rewrite (replace_c_absent 34 _ v Hnq).
+  - rewrite (replace_c_absent 92 _ v Hnb), (replace_c_absent 34 _ v Hnq).
     rewrite <- !app_assoc. cbn [app].
-    cbn [param_scan]. change (is_alnum 59) with false. cbv iota. change (is_alnum 32) with false. cbv iota.
+    cbn [param_scan]. change (is_pkey 59) with false. cbv iota. change (is_pkey 32) with false. cbv iota.
     rewrite Hc. change (c :: k' ++ 61 :: 34 :: v ++ 34 :: tail) with ((c :: k') ++ 61 :: 34 :: v ++ 34 :: tail).
     rewrite Sp. change (61 =? 61) with true. cbv iota. change (34 =? 34) with true. cbv iota.
-    rewrite (quoted_body v tail Hq). reflexivity.
+    assert (Lf : (length v < S (length (v ++ 34%N :: tail)))%nat) by (rewrite app_length; cbn; lia).
+    rewrite (quoted_esc_body v Hq _ tail Lf).
+    rewrite (unescape_plain v Hq). reflexivity.
 Qed.
 
 Lemma params_text_head l : head_fails is_pvalue (params_text l).
@@ -429,7 +452,7 @@ Proof.
     { set (T := tl (params_text L)) in *.
       assert (Len : length (params_text L) = S (length T)) by (rewrite Tx; reflexivity).
       pose proof (param_scan_text L Hok (S (S (length T))) ltac:(lia)) as P.
-      rewrite Tx in P. cbn [param_scan] in P. change (is_alnum 59) with false in P. cbv iota in P. exact P. }
+      rewrite Tx in P. cbn [param_scan] in P. change (is_pkey 59) with false in P. cbv iota in P. exact P. }
     rewrite Sc. rewrite (fold_dset_fresh L []); [reflexivity|exact Hnd].
   - rewrite Tx. destruct base as [|b0 base'] eqn:Eb.
     + cbn [app]. reflexivity.
